@@ -17,6 +17,11 @@
 
 package structs
 
+import (
+	"encoding/json"
+	"strconv"
+)
+
 type TraceResult struct {
 	Traces []*Trace `json:"traces"` // Results of Search Traces
 }
@@ -57,6 +62,56 @@ type Span struct {
 	Duration     uint64 `json:"duration"`
 	Status       string `json:"status"`
 	Service      string `json:"service"`
+}
+
+// A uint64 field of a stored span. When a block of the traces index also holds a document with a string in a
+// numeric column (a document of another ingest API), that column is returned as strings for every record of
+// the block: the decimal text of a uint64 is read like the number.
+type spanUint64 uint64
+
+func (v *spanUint64) UnmarshalJSON(data []byte) error {
+	if string(data) == "null" {
+		return nil
+	}
+	if len(data) >= 2 && data[0] == '"' && data[len(data)-1] == '"' {
+		data = data[1 : len(data)-1]
+	}
+	n, err := strconv.ParseUint(string(data), 10, 64)
+	if err != nil {
+		return err
+	}
+	*v = spanUint64(n)
+	return nil
+}
+
+func (s *Span) UnmarshalJSON(data []byte) error {
+	type plain Span
+	aux := struct {
+		*plain
+		StartTime spanUint64 `json:"start_time"`
+		EndTime   spanUint64 `json:"end_time"`
+		Duration  spanUint64 `json:"duration"`
+	}{plain: (*plain)(s)}
+	if err := json.Unmarshal(data, &aux); err != nil {
+		return err
+	}
+	s.StartTime, s.EndTime, s.Duration = uint64(aux.StartTime), uint64(aux.EndTime), uint64(aux.Duration)
+	return nil
+}
+
+func (s *GanttChartSpan) UnmarshalJSON(data []byte) error {
+	type plain GanttChartSpan
+	aux := struct {
+		*plain
+		StartTime spanUint64 `json:"start_time"`
+		EndTime   spanUint64 `json:"end_time"`
+		Duration  spanUint64 `json:"duration"`
+	}{plain: (*plain)(s)}
+	if err := json.Unmarshal(data, &aux); err != nil {
+		return err
+	}
+	s.StartTime, s.EndTime, s.Duration = uint64(aux.StartTime), uint64(aux.EndTime), uint64(aux.Duration)
+	return nil
 }
 
 type RedMetrics struct {
